@@ -12,17 +12,28 @@ import (
 	"time"
 )
 
-// Solver keeps one SMT solver process alive (z3 -in) and answers
-// satisfiability queries over a list of assertions with push/pop.
-type Solver struct {
+// Solver answers satisfiability queries with a chain of SMT back ends, each kept
+// alive as one process: the first definitive answer (sat/unsat) decides; an
+// unknown/timeout/error falls through to the next back end. Default chain:
+// z3 4.8.12 (short timeout) -> z3 5.1.0 -> cvc5.
+type backend struct {
+	name      string
 	cmdline   []string
+	prelude   string
+	timeoutMs int
 	cmd       *exec.Cmd
 	in        io.WriteCloser
 	out       *bufio.Reader
-	declared  map[string]bool
-	aliasSent int
-	timeoutMs int
-	log       io.Writer
+	Queries   int
+	Decided   int
+	Time      time.Duration
+}
+
+type Solver struct {
+	cmdline  []string
+	backends []*backend
+	log      io.Writer
+	last     *backend
 
 	Queries   int
 	Sat       int
@@ -35,7 +46,7 @@ type Solver struct {
 }
 
 func NewSolver(cmdline []string, timeoutMs int, logPath string) (*Solver, error) {
-	s := &Solver{cmdline: cmdline, timeoutMs: timeoutMs, cache: map[string]string{}}
+	s := &Solver{cmdline: cmdline, cache: map[string]string{}}
 	if logPath != "" {
 		f, err := os.Create(logPath)
 		if err != nil {
@@ -43,61 +54,77 @@ func NewSolver(cmdline []string, timeoutMs int, logPath string) (*Solver, error)
 		}
 		s.log = f
 	}
-	if err := s.start(); err != nil {
-		return nil, err
+	if len(cmdline) == 1 && cmdline[0] == "chain" {
+		first := 3000
+		if timeoutMs < first {
+			first = timeoutMs
+		}
+		s.backends = []*backend{
+			{name: "z3-4.8.12", cmdline: []string{"z3", "-in"}, timeoutMs: first, prelude: "(set-option :produce-models true)\n(set-option :timeout %d)\n"},
+			{name: "z3-5.1.0", cmdline: []string{"z3-new", "-in"}, timeoutMs: timeoutMs, prelude: "(set-option :produce-models true)\n(set-option :timeout %d)\n"},
+			{name: "cvc5-1.0", cmdline: []string{"cvc5", "--incremental", "--strings-exp", "--lang=smt2"}, timeoutMs: timeoutMs, prelude: "(set-option :produce-models true)\n(set-option :tlimit-per %d)\n(set-logic ALL)\n"},
+		}
+	} else {
+		s.backends = []*backend{{name: cmdline[0], cmdline: cmdline, timeoutMs: timeoutMs, prelude: "(set-option :produce-models true)\n(set-option :timeout %d)\n"}}
+	}
+	for _, b := range s.backends {
+		if err := b.start(); err != nil {
+			return nil, err
+		}
 	}
 	return s, nil
 }
 
-func (s *Solver) start() error {
-	s.cmd = exec.Command(s.cmdline[0], s.cmdline[1:]...)
-	in, err := s.cmd.StdinPipe()
+func (b *backend) start() error {
+	b.cmd = exec.Command(b.cmdline[0], b.cmdline[1:]...)
+	in, err := b.cmd.StdinPipe()
 	if err != nil {
 		return err
 	}
-	out, err := s.cmd.StdoutPipe()
+	out, err := b.cmd.StdoutPipe()
 	if err != nil {
 		return err
 	}
-	s.cmd.Stderr = os.Stderr
-	if err := s.cmd.Start(); err != nil {
+	b.cmd.Stderr = nil
+	if err := b.cmd.Start(); err != nil {
 		return err
 	}
-	s.in = in
-	s.out = bufio.NewReaderSize(out, 1<<20)
-	s.declared = map[string]bool{}
-	s.aliasSent = 0
+	b.in = in
+	b.out = bufio.NewReaderSize(out, 1<<20)
 	return nil
 }
 
-func (s *Solver) restart() {
-	if s.cmd != nil && s.cmd.Process != nil {
-		s.cmd.Process.Kill()
-		s.cmd.Wait()
+func (b *backend) restart() {
+	if b.cmd != nil && b.cmd.Process != nil {
+		b.cmd.Process.Kill()
+		b.cmd.Wait()
 	}
-	if err := s.start(); err != nil {
+	if err := b.start(); err != nil {
 		panic(err)
 	}
 }
 
 func (s *Solver) Close() {
-	if s.cmd != nil && s.cmd.Process != nil {
-		s.in.Close()
-		s.cmd.Process.Kill()
-		s.cmd.Wait()
+	for _, b := range s.backends {
+		if b.cmd != nil && b.cmd.Process != nil {
+			b.in.Close()
+			b.cmd.Process.Kill()
+			b.cmd.Wait()
+		}
 	}
 }
 
-func (s *Solver) send(line string) {
+func (s *Solver) sendTo(b *backend, line string) {
 	if s.log != nil {
+		fmt.Fprintln(s.log, "; ->", b.name)
 		fmt.Fprintln(s.log, line)
 	}
-	io.WriteString(s.in, line)
-	io.WriteString(s.in, "\n")
+	io.WriteString(b.in, line)
+	io.WriteString(b.in, "\n")
 }
 
-func (s *Solver) readLine() string {
-	l, err := s.out.ReadString('\n')
+func (b *backend) readLine() string {
+	l, err := b.out.ReadString('\n')
 	if err != nil {
 		return "(error \"solver died: " + err.Error() + "\")"
 	}
@@ -105,7 +132,7 @@ func (s *Solver) readLine() string {
 }
 
 // readSexp reads one balanced s-expression (possibly multi-line).
-func (s *Solver) readSexp() string {
+func (s *backend) readSexp() string {
 	var b strings.Builder
 	depth := 0
 	started := false
@@ -171,20 +198,16 @@ func neededAliases(texts []string) []aliasDef {
 	return out
 }
 
-type lineResult struct {
-	line string
-}
-
-// readWithDeadline reads one response line, killing the solver when it does not
-// answer within the deadline (incremental string solving may ignore :timeout).
-func (s *Solver) readLineDeadline(d time.Duration) (string, bool) {
+// readLineDeadline reads one response line, killing the solver when it does not
+// answer within the deadline.
+func (b *backend) readLineDeadline(d time.Duration) (string, bool) {
 	ch := make(chan string, 1)
-	go func() { ch <- s.readLine() }()
+	go func() { ch <- b.readLine() }()
 	select {
 	case l := <-ch:
 		return l, true
 	case <-time.After(d):
-		s.cmd.Process.Kill()
+		b.cmd.Process.Kill()
 		<-ch
 		return "", false
 	}
@@ -237,50 +260,53 @@ func (s *Solver) Check(asserts []*Term, wantModel []*Term) (string, map[string]s
 		names = append(names, n)
 	}
 	sort.Strings(names)
-	var b strings.Builder
-	b.WriteString("(reset)\n(set-option :produce-models true)\n")
-	if s.timeoutMs > 0 && strings.Contains(s.cmdline[0], "z3") {
-		fmt.Fprintf(&b, "(set-option :timeout %d)\n", s.timeoutMs)
-	}
+	var decl strings.Builder
 	for _, n := range names {
 		v := vars[n]
-		fmt.Fprintf(&b, "(declare-const %s %s)\n", n, sortText(v.K, v.W))
+		fmt.Fprintf(&decl, "(declare-const %s %s)\n", n, sortText(v.K, v.W))
 	}
 	for _, a := range aliases {
-		b.WriteString(a.def)
-		b.WriteByte('\n')
+		decl.WriteString(a.def)
+		decl.WriteByte('\n')
 	}
 	for _, t := range texts {
-		b.WriteString("(assert " + t + ")\n")
+		decl.WriteString("(assert " + t + ")\n")
 	}
-	b.WriteString("(check-sat)")
-	s.send(b.String())
-	res, ok := s.readLineDeadline(time.Duration(s.timeoutMs)*time.Millisecond + 10*time.Second)
-	if !ok {
-		fmt.Fprintln(os.Stderr, "SOLVER WATCHDOG: no answer, solver restarted")
-		s.restart()
-		s.Time += time.Since(start)
-		s.Unknown++
-		return "unknown", nil
-	}
-	if strings.HasPrefix(res, "(error") {
-		// an (error line means the query was not understood: inconclusive
-		fmt.Fprintln(os.Stderr, "SOLVER ERROR:", res)
-		s.Errors++
-		s.restart()
-		s.Time += time.Since(start)
-		s.Unknown++
-		return "unknown", nil
-	}
+	decl.WriteString("(check-sat)")
+	res := "unknown"
 	var model map[string]string
-	if res == "sat" && len(wantModel) > 0 {
-		mn := make([]string, 0, len(wantModel))
-		for _, v := range wantModel {
-			mn = append(mn, v.Name)
+	for _, be := range s.backends {
+		t0 := time.Now()
+		be.Queries++
+		s.sendTo(be, "(reset)\n"+fmt.Sprintf(be.prelude, be.timeoutMs)+decl.String())
+		r, ok := be.readLineDeadline(time.Duration(be.timeoutMs)*time.Millisecond + 8*time.Second)
+		be.Time += time.Since(t0)
+		if !ok {
+			be.restart()
+			continue
 		}
-		s.send("(get-value (" + strings.Join(mn, " ") + "))")
-		txt := s.readSexp()
-		model = parseGetValue(txt)
+		if strings.HasPrefix(r, "(error") {
+			// an (error line means the query was not understood by this back end: inconclusive there
+			if s.log != nil {
+				fmt.Fprintln(s.log, "; <-", r)
+			}
+			s.Errors++
+			be.restart()
+			continue
+		}
+		if r == "sat" || r == "unsat" {
+			res = r
+			be.Decided++
+			if r == "sat" && len(wantModel) > 0 {
+				mn := make([]string, 0, len(wantModel))
+				for _, v := range wantModel {
+					mn = append(mn, v.Name)
+				}
+				s.sendTo(be, "(get-value ("+strings.Join(mn, " ")+"))")
+				model = parseGetValue(be.readSexp())
+			}
+			break
+		}
 	}
 	s.Time += time.Since(start)
 	switch res {
